@@ -349,3 +349,7 @@ def run(ck, m):
           'the UseDb arm writes no watcher list' if not ww else
           'the UseDb arm changes watcher lists: %s — re-selecting the same database silently ends the session\'s subscriptions there' % ww[:3],
           ww[0].split('(')[-1].rstrip(')') if ww else '')
+    from nl import alias as _alias17
+    ck.rule('C17.i', '$connections is a per-node key: the full synchronisation skips it (C05.e, repeated) — sent to a joining node it shows the sessions of '
+                     'the primary on a node where none is open')
+    _alias17.repeat(ck, m, 'C05', ('C05.e',), 'C17.i')
